@@ -232,9 +232,29 @@ def random_schema(pkg, rnd, salt=0):
     rnd2 = random.Random("casts:%s:%s" % (pkg, salt))
     s = header(pkg) + "enum E { Z = 0; A = 1; B = 2; N = -3; }\nmessage Stamp { int64 seconds = 1; int32 nanos = 2; }\n"
     bodies = []
+    ap_flags, byval = {}, {}
+
+    def reach(a, b, seen=()):
+        return a == b or any(reach(c, b, seen + (a,)) for c in byval.get(a, ()) if c not in seen)
+
+    def plain(owner, fn, t, lab, n, o, kd):
+        """Text of a field outside any oneof. A by-value message field (target always present; targets not drawn yet count
+        as possibly always present) must not close a cycle - that would be an invalid recursive Go type, which no schema of
+        the feature set describes - so such a field is printed as repeated. Consumes no randomness."""
+        if kd == "msg" and t in names and lab != "repeated":
+            if names.index(t) <= names.index(owner) and ap_flags.get(t):
+                if reach(t, owner):
+                    lab = "repeated"
+                else:
+                    byval.setdefault(owner, set()).add(t)
+            elif names.index(t) > names.index(owner):
+                byval.setdefault(owner, set()).add(t)
+        return "  %s%s %s = %d%s;\n" % ((lab + " ") if lab else "", t, fn, n, (" [" + ", ".join(o) + "]") if o else "")
+
     for mi, name in enumerate(names):
         capture = rnd.random() < 0.25
         msg_ap = rnd.random() < 0.15
+        ap_flags[name] = msg_ap
         nf = rnd.randint(1, 9)
         pool = list(range(1, 16)) + [16, 17, 31, 32, 63]
         if not capture:
@@ -296,10 +316,10 @@ def random_schema(pkg, rnd, salt=0):
                 if cnt == 0:
                     body += ""  # nothing consumed; emit the field normally below
                     fn, t, lab, n, o, kd = fields[i]
-                    body += "  %s%s %s = %d%s;\n" % ((lab + " ") if lab else "", t, fn, n, (" [" + ", ".join(o) + "]") if o else "")
+                    body += plain(name, fn, t, lab, n, o, kd)
                     i += 1
                 continue
-            body += "  %s%s %s = %d%s;\n" % ((label + " ") if label else "", ty, fname, num, (" [" + ", ".join(opts) + "]") if opts else "")
+            body += plain(name, fname, ty, label, num, opts, kind)
             i += 1
         bodies.append((name, body))
     # second stream: sometimes the last message is declared inside the first one (Go name M0_Mk, references qualified)
